@@ -300,7 +300,12 @@ impl Worker {
 }
 
 /// Print the verdict lines, write the evidence, return the process exit code.
+/// what every generated step case / program of the instruction-level checks also varies
+const STEP_COMMON: &str = " Common to all step cases and programs of this check: the bus controller is programmed through Bus::write and only the registers that change are rewritten (consecutive cases on one emulator differ by single-register transitions now and then); one case in three carries 'environment noise' (one or two bytes in on-chip I/O registers that no property gives a meaning to, set through the write path); one step case in 24 starts at an odd PC (oracle: same result as at pc & !1, PC compared without bit 0, or an error; control flow at an odd PC unconstrained); the emulator instance is reused across cases, so state that leaks from one case into the next shows up as a mismatch.";
+
 pub fn finish(ctx: &Ctx, property: &str, mut stats: Stats, rule: &str, assumptions: Vec<String>, extra: Map<String, Value>) -> i32 {
+    let rule_owned = if ["C01", "C02", "C03", "C04", "C05", "C06", "C07", "C08", "C14", "C20"].contains(&property) { format!("{}{}", rule, STEP_COMMON) } else { rule.to_string() };
+    let rule: &str = &rule_owned;
     let mut violations: Vec<Failure> = Vec::new();
     // failures whose signature is listed as an open finding for this property are known findings
     for f in std::mem::take(&mut stats.failures) {
